@@ -15,6 +15,11 @@
 (*  static_file, dashboard, admin                                           *)
 (*               the basic-auth middleware runs for every request of a     *)
 (*               keep-alive connection.                                     *)
+(*  vhost_http, vhost_group                                                 *)
+(*               an http proxy with httpUser / httpPassword behind the     *)
+(*               vhost port, on its own or as member of a load-balancing    *)
+(*               group (the group registers the route on behalf of its      *)
+(*               members): CheckAuth runs for every request.                *)
 (*                                                                         *)
 (* A request is served (reaches the protected target / returns protected   *)
 (* content) only if it -- for socks5: its connection -- presented exactly  *)
@@ -23,7 +28,7 @@
 (***************************************************************************)
 EXTENDS Integers, FiniteSets, Sequences, TLC
 
-CONSTANTS Kinds,        \* {"http_proxy", "socks5", "static_file", "dashboard", "admin"}
+CONSTANTS Kinds,        \* {"http_proxy", "socks5", "static_file", "dashboard", "admin", "vhost_http", "vhost_group"}
           Creds,        \* classes of presented credentials; "right" is the only one that matches
           MaxReqs,      \* requests per connection
           Deviations    \* {} or a subset of {"ConnectAfterFirstUnchecked", "FirstOnly"}
